@@ -38,7 +38,7 @@ def classify(pid, d):
 
 CLASSIFIERS = {}
 
-ALL_EXTRACTORS = ["Basic", "Message", "Conversion", "Session", "Service", "SigGrammar", "Value", "Reader", "Encoding", "GenReaders", "Endpoint", "Stream", "Client", "Queues", "Auth", "Calls", "Signals", "Property"]
+ALL_EXTRACTORS = ["Basic", "Message", "Conversion", "Session", "Service", "SigGrammar", "Value", "Reader", "Encoding", "GenReaders", "Endpoint", "Stream", "Client", "Queues", "Auth", "Calls", "Signals", "Property", "Directory"]
 
 
 def lean_string_list(path, name):
@@ -322,6 +322,24 @@ PROPS = {
         "assumptions": [
             "a read and a save are atomic steps (each is one critical section of propertiesMutex, tied by the regenerated flows)",
             "service-side updates go through the generated Update<Prop> helper, which passes the declared signature",
+            "the linearizability acceptor of the driver is a brute-force search over short histories, not a proved decision procedure",
+        ],
+        "timeout": {"quick": 600, "thorough": 3000},
+    },
+    "C15": {
+        "level": "proof",
+        "extract": ["Directory"],
+        "rule": "a real directory server; remote operations through the generated ServiceDirectory proxy (register with valid "
+                "and invalid infos — empty name / machine id, process 0, no or empty endpoint —, ready, unregister, update "
+                "with same / other name, lookup, list), local operations of the hosting server (NewService = register + "
+                "ready, Terminate = unregister), a subscriber to serviceAdded / serviceRemoved; random scripts of 10-35 "
+                "operations over 4 names x 6 ids (thorough: also every sequence of 3 operations over a 10-operation "
+                "alphabet) compared answer by answer, list by list and event by event with the directory machine; 40 "
+                "(thorough 400) concurrent histories of two remote clients and the hosting server over three names, "
+                "recorded with invocation / response stamps and decided by the linearizability acceptor",
+        "assumptions": [
+            "each operation is one atomic step: every method of the directory runs under its mutex (regenerated flows)",
+            "serviceAdded / serviceRemoved travel on separate subscriptions: their relative order across the two signals is not observable by a client",
             "the linearizability acceptor of the driver is a brute-force search over short histories, not a proved decision procedure",
         ],
         "timeout": {"quick": 600, "thorough": 3000},
